@@ -19,7 +19,11 @@ TECHNIQUE = ("Coq invariant proof over admissible operation histories (HeapProof
 RULE = ("admissible histories of 5..200 operations over a pool of handles, generated from one PRNG with a shadow ownership "
         "simulation; biased to replace-same-key-twice, delete/destroy-parent-while-extra-reference-held-then-use, put_idx over "
         "an occupied slot, a child shared by two containers, re-adding the value already stored, failing operations; a case is "
-        "non-trivial when some step destroyed a node; distinct = distinct scripts among those")
+        "non-trivial when some step destroyed a node; distinct = distinct scripts among those.  Before the random cases a "
+        "small-scope block enumerates EVERY admissible history of <= 3 operations over the full 43-operation alphabet (one entry "
+        "per branch of the code: each operation kind, each refusal, each boundary index) from the first of three tiny documents "
+        "over the same four nodes, and of <= 3 over a 21-operation core alphabet / <= 2 over the full one from the other two "
+        "(thorough: <= 3 full and <= 4 core from every document)")
 TRUSTED = ["Coq 8.16.1 kernel (coqc), no axioms (Print Assumptions: closed under the global context)",
            "extraction (ExtrOcamlBasic only) + ocaml/mdrv glue (drv_heap.ml)",
            "harness/drv_heap.c (callback log, handle table), xalloc.c, gcc -fsanitize=address,undefined",
@@ -57,6 +61,14 @@ class Sim:
         self.L = {}        # id -> references the client owns
         self.nxt = 1
         self.ever_dead = set()
+
+    def clone(self):
+        c = Sim()
+        c.n = {i: dict(nd, kids=[list(e) for e in nd["kids"]], ck=set(nd.get("ck", ()))) for i, nd in self.n.items()}
+        c.L = dict(self.L)
+        c.nxt = self.nxt
+        c.ever_dead = set(self.ever_dead)
+        return c
 
     # ---------------------------------------------------------------- helpers
     def live(self, i):
@@ -317,12 +329,11 @@ class Sim:
             i = self.handle(a[1])
             r["dump"] = self.dump(i)
         elif a[0] in ("padd", "prepl", "prem", "pcopy", "pmove"):
-            import copy
-            snap = copy.deepcopy((self.n, self.L))
+            snap = self.clone()
             try:
                 r["ret"] = self._patch(a)
             except Bad:
-                self.n, self.L = snap
+                self.n, self.L = snap.n, snap.L
                 raise
         else:
             raise Bad("op " + op)
@@ -977,9 +988,81 @@ def gen_one(rng, length):
     return "heap " + ";".join(g.ops), {"kind": rng.choice(kinds) if kinds else "plain", "kinds": kinds}
 
 
+# -------------------------------------------------------------------- small-scope enumeration
+# Every history of at most k operations over a fixed alphabet, started from three tiny documents
+# over the same four nodes (h1 object, h2 array, h3 int, h4 double with retained text), closed by the
+# releases still due.  Each alphabet entry selects a different branch of the code (new key / replace /
+# self-add / constant key / KEY_IS_NEW, delete present / missing, append / put over a slot / pad / huge
+# index / insert inside / beyond, del_idx in range / out of range / empty, get / put of each node,
+# registration with NULL userdata / reset / stock serializer, setters of the right and the wrong type,
+# the two deep copies, pointer_set on an object / "-" / two levels / the root / a malformed path, the
+# patch operations).  Entries are functions of the shadow state where an id or a registration number
+# must be fresh.  Sequences that are not admissible where they stand (a dead handle, a reference the
+# client does not own, a cycle, a broken KEY_IS_NEW promise) are pruned.
+SS_PREFIXES = [
+    ["h1=newobj", "h2=newarr", "h3=newint 7", "h4=newdbls"],
+    ["h1=newobj", "h2=newarr", "h3=newint 7", "h4=newdbls", "get h3", "add h1 6b h3", "get h3", "aadd h2 h3", "aadd h2 n"],
+    ["h1=newobj", "h2=newarr", "h3=newint 7", "h4=newdbls", "aadd h2 h3", "get h2", "add h1 61 h2"],
+]
+_c = lambda text: (lambda sim: text)
+SS_FULL = [_c(x) for x in [
+    "get h3", "put h3", "put h1", "put h2", "get h1", "put h4",
+    "add h1 6b h3", "add h1 6b n", "add h1 61 h2", "add h1 6b h1", "addx h1 6b h4 2", "addx h1 62 n 1",
+    "del h1 6b", "del h1 7a7a",
+    "aadd h2 h3", "aadd h2 h1", "aput h2 0 h3", "aput h2 2 n", "aput h2 2305843009213693952 h3",
+    "ains h2 0 h4", "ains h2 3 h3", "adel h2 0 1", "adel h2 1 2", "adel h2 0 0",
+    "setv h3 inc", "setv h4 dbl", "setv h1 int",
+    "ptrset h1 2f6b h3", "ptrset h2 2f2d h3", "ptrset h1 2f612f30 h3", "ptrset h1 - h3", "ptrset h1 6b h3",
+    "padd h1 2f6b n", "prem h1 2f6b", "pmove h1 2f6b 2f61", "pcopy h1 2f6b 2f62",
+    "use h1", "use h3"]] + [
+    lambda sim: "reg h3 %d 0 1 0" % sim.nxt, lambda sim: "reg h3 %d 0 0 1" % sim.nxt,
+    lambda sim: "reg h4 %d 1 1 3" % sim.nxt,
+    lambda sim: "copy h%d=h1" % sim.nxt, lambda sim: "copyd h%d=h2" % sim.nxt]
+SS_CORE_TEXT = ["get h3", "put h3", "put h1", "put h2", "add h1 6b h3", "add h1 6b n", "add h1 61 h2", "del h1 6b",
+                "aadd h2 h3", "aadd h2 h1", "aput h2 0 h3", "aput h2 2 n", "ains h2 0 h4", "adel h2 0 1", "setv h4 dbl",
+                "ptrset h1 2f6b h3", "prem h1 2f6b", "use h1"]
+SS_CORE = [_c(x) for x in SS_CORE_TEXT] + [
+    lambda sim: "reg h3 %d 0 1 0" % sim.nxt, lambda sim: "reg h3 %d 0 0 1" % sim.nxt,
+    lambda sim: "copy h%d=h1" % sim.nxt]
+
+
+def small_scope(tier):
+    """quick: every history of <= 3 operations over the full alphabet (43) from the first document, and
+    of <= 3 over the core alphabet (21) / <= 2 over the full one from the other two; thorough: one step
+    deeper (<= 3 over the full alphabet and <= 4 over the core alphabet from every document)"""
+    plans = [(SS_PREFIXES[0], SS_FULL, 3)] + [(p, SS_CORE, 3) for p in SS_PREFIXES[1:]] + \
+        [(p, SS_FULL, 2) for p in SS_PREFIXES[1:]]
+    if tier != "quick":
+        plans += [(p, SS_FULL, 3) for p in SS_PREFIXES[1:]] + [(p, SS_CORE, 4) for p in SS_PREFIXES]
+    seen, out = set(), []
+
+    def rec(prefix, sim, ops, alphabet, maxd):
+        line = "heap " + ";".join(prefix + ops + close_ops(sim.clone()))
+        if line not in seen:
+            seen.add(line)
+            out.append((line, {"kind": "small-scope", "kinds": ["small-scope"]}))
+        if len(ops) == maxd:
+            return
+        for f in alphabet:
+            op = f(sim)
+            s2 = sim.clone()
+            try:
+                s2.apply(op)
+            except (Bad, KeyError, ValueError, IndexError):
+                continue
+            rec(prefix, s2, ops + [op], alphabet, maxd)
+
+    for prefix, alphabet, maxd in plans:
+        base = Sim()
+        for op in prefix:
+            base.apply(op)
+        rec(prefix, base, [], alphabet, maxd)
+    return out
+
+
 def gen(rng, tier):
     n = 2000 if tier == "quick" else 30000
-    out = []
+    out = small_scope(tier)
     for ci in range(n):
         length = rng.choice([5, 8, 12, 20, 30, 50, 80, 120, 200]) if rng.random() < 0.8 else rng.randint(5, 200)
         out.append(gen_one(rng, length))
@@ -1083,7 +1166,7 @@ def shrink(ck, line, cls):
 
 
 def search(rng, broken_lines):
-    return gen(rng, "quick")[:1500]
+    return [c for c in gen(rng, "quick") if c[1]["kind"] != "small-scope"][:1500]
 
 
 LEVEL_TEXT = ("Machine-checked invariant: for every admissible history of constructor / get / put / object add-replace-delete / array "
